@@ -73,12 +73,43 @@ Definition is_some {A} (o : option A) : bool := match o with Some _ => true | No
 Definition complete (p : parser) (cfg : ns) : bool :=
   forallb (fun kd => is_some (get (fst kd) cfg)) (p_opts p).
 
+(* "that subcommand's complete settings (its defaults, environment and given values)": the value of
+   every declared option is the last one given for it at this level (config / object sections first,
+   then the items of the command line in their order), else the environment's, else the default *)
+Definition opt_given (k : str) (c : cobj) : option Z :=
+  match assoc k c with Some (CInt z) => Some z | _ => None end.
+
+Definition argv_vals (k : str) (a : option argvt) : list (option Z) :=
+  match a with
+  | Some (ArgvT items _) =>
+      map (fun i => match i with
+                    | IOpt k' v => if str_eqb k k' then Some v else None
+                    | ICfg c => opt_given k c
+                    end) items
+  | None => []
+  end.
+
+Definition expected_val (lv : level) (k : str) (d : Z) : Z :=
+  match last_some (map (opt_given k) (lv_cfgs lv) ++ argv_vals k (lv_argv lv)) with
+  | Some z => z
+  | None => match lv_env lv with
+            | Some e => match opt_given k e with Some z => z | None => d end
+            | None => d
+            end
+  end.
+
+Definition values_ok (p : parser) (lv : level) (cfg : ns) : bool :=
+  forallb (fun kd => match get (fst kd) cfg with
+                     | Some (NInt z) => Z.eqb z (expected_val lv (fst kd) (snd kd))
+                     | _ => false
+                     end) (p_opts p).
+
 (* what a successful parse result must look like, at every level *)
 Fixpoint spec_ok (fuel : nat) (p : parser) (lv : level) (cfg : ns) : bool :=
   match fuel with
   | O => false
   | S f =>
-    complete p cfg &&
+    values_ok p lv cfg &&
     (if p_has p then
        match select p lv with
        | None =>
